@@ -16,10 +16,12 @@ import (
 // C09 — counting windows: per key, consecutive batches of exactly N rows.
 //
 // modes (cfg mode):
-//   win — the real CountingWindow with its goroutine (Start): ops `row <id> v…`, `reap`, `flush`;
-//         `flush` reports the batches delivered on OutputChan since the previous flush, in delivery order
-//   sql — SELECT …, count(*), collect(id), first_value(id), last_value(id) … GROUP BY …, CountingWindow(N):
-//         ops `row …`, final `flush` reports the sink deliveries in order
+//
+//	win — the real CountingWindow with its goroutine (Start): ops `row <id> v…`, `reap`, `flush`;
+//	      `flush` reports the batches delivered on OutputChan since the previous flush, in delivery order
+//	sql — SELECT …, count(*), collect(id), first_value(id), last_value(id) … GROUP BY …, CountingWindow(N):
+//	      ops `row …`, final `flush` reports the sink deliveries in order
+//
 // Key value tokens as in C04.
 type c09 struct{}
 
